@@ -58,7 +58,7 @@ def configs(tier: str, seed: int):
 
     def add(cls, kind, ac=True, D=2, family="affine", direction="rot", depth=3, alpha="full"):
         out.append({"cls": cls, "kind": kind, "ac": ac, "D": D, "family": family, "dir": direction,
-                    "seed": seed % 4, "depth": depth, "alpha": alpha})
+                    "seed": seed % 4, "depth": depth, "alpha": alpha, "lean": not th})
 
     # quick: every class/kind at depth 3 with the full alphabet; thorough: the same list, four of them one level deeper
     add("ddf", "param", True, depth=4 if th else 3)
@@ -507,8 +507,10 @@ def alphabet(cfg):
     single = cls in ("ddf", "svf", "ffd", "svffd", "lin")
     ops = []
     A = ops.append
+    lean = bool(cfg.get("lean"))  # quick tier: one form of the operations that differ only in a value
     if tensor_kind:
-        A(["set_data", 1])
+        if not lean:
+            A(["set_data", 1])
         A(["set_data", 2])
         A(["edit", None])
         # in-place edits written through `.data` (do not bump the version counter of the parameter) and a real optimiser step
@@ -527,7 +529,8 @@ def alphabet(cfg):
         grids = ["gA", "g0"]
     for g in grids:
         A(["grid_", g])
-    A(["condition_", "c1"])
+    if not (lean and tensor_kind):
+        A(["condition_", "c1"])
     if not tensor_kind:
         A(["condition_", "c2"])
     A(["condition_", "c3"])
@@ -565,6 +568,7 @@ OBSERVERS = ("call", "disp", "dispg", "fwd")
 INVERTIBLE = ("svf", "svffd", "lin", "gen", "seq2")
 # make-inverse forms: link / update_buffers flags ("TF" = link=True, update_buffers=False), "inv" = the .inv property
 INVERSE_FORMS = ("FF", "TF", "FT", "TT", "inv")
+NO_ORACLE_OPS = ("set_data", "edit", "reset", "clear", "update")
 CREATORS = ("inverse", "copy_data", "copy_grid", "copy_cond", "link", "unlink")
 
 
@@ -590,6 +594,7 @@ def bounds(tier):
         "depth_full_alphabet": sorted({c["depth"] for c in cf if c["alpha"] == "full"}),
         "depth_core_alphabet": sorted({c["depth"] for c in cf if c["alpha"] == "core"}),
         "core_alphabet_sizes": sorted({len(alphabet(c)) for c in cf if c["alpha"] == "core"}),
+        "last_level": "quick: set_data/edit/reset/clear/update are not run as the last step of a maximal history (no oracle beyond 'does not raise'); thorough: all ops at every level" if tier == "quick" else "all ops at every level",
         "probes_per_call": 6,
         "grid_menu": ["g0", "gA (2n-1, same domain)", "gAx", "gB (other align_corners)", "gC (other size/spacing/centre)", "gD (disp target: current grid resampled to another size)"],
     }
@@ -1375,6 +1380,9 @@ def run_shard(shard) -> Acc:
         return acc
     seen = set()
     frontier = []
+    # quick tier: operations whose only oracle is "does not raise" are not executed as the LAST step of a history of maximal
+    # length (they are executed, and followed by observers, at every earlier position; the thorough tier runs them everywhere)
+    last_skip = bool(cfg.get("lean"))
 
     def extend(hist, op):
         """Replay hist on fresh objects, apply op with judgement; returns the new state key or None."""
@@ -1402,6 +1410,9 @@ def run_shard(shard) -> Acc:
         for hist in frontier:
             Wp = replay_world(fx, hist)
             for op in ops:
+                if last_skip and depth == maxd and op[0] in NO_ORACLE_OPS:
+                    acc.undef("not-run:last-level-op-without-oracle:" + op[0])
+                    continue
                 en, why = enabled(Wp, op)
                 if not en:
                     acc.undef("not-enabled:" + op[0] + ":" + why)
